@@ -42,8 +42,12 @@ func (g G) drawAttrQ(label string, w *WorldCfg, sp int) *MsgSpec {
 		const basic = "urn:oasis:names:tc:SAML:2.0:attrname-format:basic"
 		pool := []CustomAttrCfg{{Name: "Email", Format: basic}, {Name: "SurName", Format: basic}, {Name: "FirstName", Format: basic},
 			{Name: "FullName", Format: basic}, {Name: "UserName", Format: basic}, {Name: "UserID", Format: basic}}
-		for _, ca := range u.Custom {
+		for ci, ca := range u.Custom {
 			pool = append(pool, CustomAttrCfg{Name: ca.Name, Format: ca.Format, Friendly: ca.Friendly})
+			if len(ca.Values) >= 2 && g.chance(fmt.Sprintf("%s.vals%d", label, ci), 50) {
+				// the query names some of the values of a multi-valued attribute
+				pool = append(pool, CustomAttrCfg{Name: ca.Name, Format: ca.Format, Friendly: ca.Friendly, Values: []string{ca.Values[len(ca.Values)-1]}})
+			}
 		}
 		n := g.rng(label+".nreq", 1, 4)
 		for i := 0; i < n; i++ {
@@ -67,7 +71,7 @@ func (g G) drawAttrQ(label string, w *WorldCfg, sp int) *MsgSpec {
 
 // deviate applies one deviation from conformance out of the lists in the statements of C06 / C12 / C13.
 func (g G) deviate(label string, m *MsgSpec) {
-	opts := []string{"dest-other-host", "dest-other-host", "issuer-absent", "issuer-empty", "issuer-other", "issuer-rogue", "issuer-lookalike", "issuer-case", "issuer-space",
+	opts := []string{"b64-garbage", "b64-garbage", "deflate-cut", "dest-issuer-route", "dest-issuer-route", "dest-metadata-base", "dest-other-host", "dest-other-host", "issuer-absent", "issuer-empty", "issuer-other", "issuer-rogue", "issuer-lookalike", "issuer-case", "issuer-space",
 		"dest-other", "dest-foreign", "dest-case", "dest-upper", "dest-slash", "dest-scheme", "dest-empty",
 		"noid", "emptyid", "noversion", "emptyversion", "version11", "timelit", "window-past", "window-future", "encoding", "sigalg-nosig", "empty-request", "double-encode",
 		"rogue-sp", "struct"}
@@ -91,6 +95,14 @@ func (g G) deviate(label string, m *MsgSpec) {
 		m.IssuerMode = "lookalike-space"
 	case "dest-other-host":
 		m.DestMode = "other-host"
+	case "dest-issuer-route":
+		m.DestMode = "issuer-route"
+	case "dest-metadata-base":
+		m.DestMode = "metadata-base"
+	case "b64-garbage":
+		m.Tamper = append(m.Tamper, Tamper{Op: "b64_garbage", S: g.pick(label+".bg", "!!!!", "====", "=", "\x00\x00", "%%%", "A", "AAAA====", " <x/>", "*")})
+	case "deflate-cut":
+		m.Tamper = append(m.Tamper, Tamper{Op: "deflate_cut", A: g.rng(label+".dc", 1, 12), B: g.intn(label+".dcl", 2)})
 	case "dest-other":
 		m.DestMode = "other-endpoint"
 	case "dest-foreign":
